@@ -402,8 +402,10 @@ func judgeC04(c *core.Case, cfg *core.Config) core.Verdict {
 	// Run
 	if prog != nil {
 		stage = "run error"
-		if p := guard("Program.Disassemble", func() { _ = prog.Disassemble() }); p != "" {
-			return fail(p)
+		if !c.Bool("big") { // (Disassemble concatenates strings: quadratic in the program size, minutes for 64 KiB)
+			if p := guard("Program.Disassemble", func() { _ = prog.Disassemble() }); p != "" {
+				return fail(p)
+			}
 		}
 		for _, env := range o.runEnvs(spec) {
 			if norun {
@@ -632,9 +634,36 @@ func TestC04(t *testing.T) {
 		return
 	}
 	defer rec.Flush()
-	go c04Watchdog(rec, 90*time.Second)
+	go c04Watchdog(rec, 180*time.Second)
 	rec.Extra["rule"] = "rapid-generated cases (source, option set, environment selector). Sources: well-typed generated programs, programs with one injected typing fault, token-level mutations (delete / duplicate / swap / insert junk tokens) of generated programs, 170 hostile constants and their pairwise combinations, grammatical but type-incorrect shapes. Options: Env in {none, struct, *struct, map, map[string]int, map with nil and nil-func entries} x AllowUndefinedVariables x Optimize x {AsBool, AsInt64, AsFloat64} x Operator with good / missing / non-function / ill-shaped / nil functions x ConstExpr with good / missing / non-function / panicking names x Patch with 21 node-replacing visitors at a drawn position. Run environments: the declared one, nil, empty map, wrongly typed members, panicking functions, zero-valued members. Parse, Compile, Eval, Run and Disassemble are called under recover(); an error must come with a nil program/value, a program without error must be usable; a watchdog reports a case that does not finish. Non-trivial: the source parses (the input reached the type checker); distinct by source+options."
 	rec.Extra["assumptions"] = []string{"vm.MemoryBudget is lowered to 150 and integer literals are clamped to +-300 so that every generated run terminates quickly; legitimately long runs are outside the property's 'never hangs' clause (DESIGN.md section 7)"}
 	rec.Extra["floor"] = 0.2
-	core.RunRapid(t, rec, "random", cfg.N(60000, 1500000), func(rt *rapid.T) *core.Case { return genC04(rt, cfg) })
+	if !core.RunRapid(t, rec, "random", cfg.N(60000, 1500000), func(rt *rapid.T) *core.Case { return genC04(rt, cfg) }) {
+		return
+	}
+	// inputs of up to 64 KiB made of one construct repeated or nested thousands of times
+	core.RunRapid(t, rec, "big", cfg.N(8, 60), func(rt *rapid.T) *core.Case {
+		c := pcase("C04", "contain")
+		c.Env = core.GenEnvSpec(rt, "", 2)
+		size := rapid.SampledFrom([]int{2000, 12000, 30000, 64000}).Draw(rt, "bytes")
+		if !cfg.Thorough() && size > 30000 {
+			size = 30000
+		}
+		rep := func(unit string, tail string, close string) string {
+			n := size / (len(unit) + len(close))
+			return strings.Repeat(unit, n) + tail + strings.Repeat(close, n)
+		}
+		c.Source = []string{
+			rep("1+", "1", ""), rep("(", "I", ")"), rep("-", "I", ""), rep("not ", "B", ""), rep("[", "", "]"), "N" + rep(".Deep", "", ""), "P" + rep("?.Next", "", ""),
+			rep("B ? I : ", "J", ""), rep("Inc(", "1", ")"), "'" + rep("é", "", "") + "'", "Xs" + rep("[0]", "", ""), rep("B and ", "T", ""), rep("2**", "1", ""),
+			rep("all([1],{", "true", "})"), rep("{a:", "1", "}"), rep("B ?: ", "T", ""), rep("I in [", "1", "]"), rep("S + ", "S2", ""), rep("I .. ", "J", ""), rep("\n", "I", ""),
+			rep("I,", "J", ""), rep("1 < ", "2", ""), rep("len(", "Xs", ")"), rep("# ", "", ""), rep("0x", "", ""), rep("1e", "9", ""),
+		}[rapid.IntRange(0, 25).Draw(rt, "bigshape")]
+		c.P["srckind"], c.P["big"] = "big", true
+		c.P["env"] = rapid.SampledFrom([]string{"none", "struct", "map"}).Draw(rt, "env")
+		c.P["allow"], c.P["opt"] = false, rapid.Bool().Draw(rt, "opt")
+		c.P["directive"], c.P["patch"], c.P["patchAt"], c.P["runenv"] = "", "", 0, ""
+		c.P["operators"], c.P["constexpr"] = []string{}, []string{}
+		return c
+	})
 }
